@@ -138,6 +138,69 @@ def default_granularity_cases():
     return res
 
 
+def param_signature_cases():
+    """the port of a component is the one the standard signature WITH THE COMPONENT'S OWN CONSTRUCTOR PARAMETERS
+    describes (address width, data width, granularity, features as documented for each class), and an interface
+    created from that signature connects to it — a fixed grid including the one-row / one-word corners"""
+    import math
+    res, n = [], 0
+    rows = []
+    for aw, dw in itertools.product([1, 3, 8], [8, 16, 32]):
+        rows.append((f"csr.Multiplexer(aw={aw},dw={dw})", lambda aw=aw, dw=dw: csr.Multiplexer(MemoryMap(addr_width=aw, data_width=dw)), "bus", "target",
+                     lambda aw=aw, dw=dw: csr.Signature(addr_width=aw, data_width=dw)))
+        rows.append((f"csr.Decoder(aw={aw},dw={dw})", lambda aw=aw, dw=dw: csr.Decoder(addr_width=aw, data_width=dw), "bus", "target",
+                     lambda aw=aw, dw=dw: csr.Signature(addr_width=aw, data_width=dw)))
+        rows.append((f"csr.Bridge(aw={aw},dw={dw})", lambda aw=aw, dw=dw: csr.Bridge(MemoryMap(addr_width=aw, data_width=dw)), "bus", "target",
+                     lambda aw=aw, dw=dw: csr.Signature(addr_width=aw, data_width=dw)))
+        rows.append((f"gpio.Peripheral(pin_count=2,aw={aw + 3},dw={dw})", lambda aw=aw, dw=dw: gpio.Peripheral(pin_count=2, addr_width=aw + 3, data_width=dw),
+                     "bus", "target", lambda aw=aw, dw=dw: csr.Signature(addr_width=aw + 3, data_width=dw)))
+    for dw, g in [(8, 8), (16, 8), (32, 8), (32, 16), (32, 32), (64, 8)]:
+        for rows_ in (1, 2, 4, 32):
+            size = rows_ * dw // g
+            for wr in (True, False):
+                rows.append((f"WishboneSRAM(size={size},dw={dw},gran={g},writable={wr})",
+                             lambda size=size, dw=dw, g=g, wr=wr: WishboneSRAM(size=size, data_width=dw, granularity=g, writable=wr), "wb_bus", "target",
+                             lambda rows_=rows_, dw=dw, g=g: wishbone.Signature(addr_width=int(math.log2(rows_)), data_width=dw, granularity=g)))
+        for aw, fs in itertools.product([0, 1, 7], [(), ("err",), ("stall", "lock"), tuple(FEATS)]):
+            rows.append((f"wishbone.Decoder(aw={aw},dw={dw},gran={g},features={fs})",
+                         lambda aw=aw, dw=dw, g=g, fs=fs: wishbone.Decoder(addr_width=aw, data_width=dw, granularity=g, features=fs), "bus", "target",
+                         lambda aw=aw, dw=dw, g=g, fs=fs: wishbone.Signature(addr_width=aw, data_width=dw, granularity=g, features=fs)))
+            rows.append((f"wishbone.Arbiter(aw={aw},dw={dw},gran={g},features={fs})",
+                         lambda aw=aw, dw=dw, g=g, fs=fs: wishbone.Arbiter(addr_width=aw, data_width=dw, granularity=g, features=fs), "bus", "initiator",
+                         lambda aw=aw, dw=dw, g=g, fs=fs: wishbone.Signature(addr_width=aw, data_width=dw, granularity=g, features=fs)))
+    for cdw, wdw, caw in itertools.product([8, 16], [8, 16, 32, 64], [1, 2, 3, 6]):
+        rb = (wdw // cdw).bit_length() - 1
+        if wdw < cdw or caw < rb:
+            continue
+
+        def mk(cdw=cdw, wdw=wdw, caw=caw):
+            cb = csr.Interface(addr_width=caw, data_width=cdw)
+            cb.memory_map = MemoryMap(addr_width=caw, data_width=cdw)
+            return WishboneCSRBridge(cb, data_width=wdw)
+        rows.append((f"WishboneCSRBridge(csr_dw={cdw},csr_aw={caw},wb_dw={wdw})", mk, "wb_bus", "target",
+                     lambda cdw=cdw, wdw=wdw, caw=caw, rb=rb: wishbone.Signature(addr_width=max(0, caw - rb), data_width=wdw, granularity=cdw)))
+    for descr, mk, port, role, std_ in rows:
+        n += 1
+        try:
+            try:
+                c = mk()
+            except (ValueError, TypeError):
+                continue                       # parameters the class refuses (a one-granule SRAM has no address space)
+            p_ = getattr(c, port)
+            std = std_()
+            have = p_.signature.flip() if isinstance(p_.signature, wiring.FlippedSignature) else p_.signature
+            got = {k: Shape.cast(m_.shape).width for k, m_ in have.members.items()}
+            want = {k: Shape.cast(m_.shape).width for k, m_ in std.members.items()}
+            if got != want:
+                res.append((descr, f"port {port} has member widths {got}; the standard signature with the component's parameters has {want}"))
+                continue
+            m = Module()
+            connect(m, std.create() if role == "target" else flipped(std.create()), p_)
+        except Exception as e:
+            res.append((descr, f"{type(e).__name__}: {str(e)[:160]}"))
+    return res, n
+
+
 def signature_grid():
     """(class name, params dict, constructor) over the grid"""
     rows = []
